@@ -362,3 +362,96 @@ Definition predict_row (D : nat) (t : sample) (c d1 d2 : Z) : Qc :=
   intercept + interaction1 + interaction2.
 Definition predict_training (g : cfg) (d : data) (t : sample) : list Qc :=
   tab (nobs d) (fun i => predict_row (c_D g) t (znth (d_cl d) i) (znth (d_dd1 d) i) (znth (d_dd2 d) i)).
+
+(* ---------------------------------------------------------------- vocabulary of the source translation
+   (Generated/SrcGibbs.v, configurations C08_* of harness/src_functions.py).  Each definition below is the meaning of ONE
+   attribute / numpy / library call of the translated methods of LegacySparseDrugComboImpl; which call is applied to
+   what, in which order, under which test and in which loop is read from the source on every run.
+
+   The object: `self` is split as the model splits it - the options and sizes [g : cfg], the observations [d : data]
+   (self.y, self.cline, self.dd1, self.dd2 and the three index dicts derived from them by _update) and the sampler
+   state [st] (cfg["fields"]: self.W ... self.Mu are the fields of the record, a store rebinds the record).
+   Arrays: a float array of shape (n,) is [list Qc], of shape (n, D) the list of its rows, an integer array of
+   observation numbers [list nat], an id array [list Z].  numpy's IndexError / shape errors are not represented (as in
+   the header of this file): a read outside an array gives 0 / [], a store outside it does nothing; the linking
+   theorems carry the shape facts they need as hypotheses.
+
+   Random draws: the translated methods denote programs in the free monad [gprog] over the model's [draw] / [val]
+   (exactly the model's [prog], with a result type): `x = np.random.normal(m, s)` is the node [GDraw (DNormal m (s^2))]
+   whose continuation goes on with the drawn value.  [to_prog] reads such a program of states as a model program. *)
+Definition qnum := Qc.
+(* Python / numpy float arithmetic as exact rational arithmetic (named: the generated file does not open Qc_scope) *)
+Definition q0 : Qc := 0.
+Definition q1 : Qc := 1.
+Definition qadd (a b : Qc) : Qc := a + b.
+Definition qsub (a b : Qc) : Qc := a - b.
+Definition qmul (a b : Qc) : Qc := a * b.
+Definition qdiv (a b : Qc) : Qc := a / b.
+Inductive gprog (T : Type) : Type := GRet (x : T) | GDraw (dr : draw) (k : val -> gprog T).
+Arguments GRet {T} x.
+Arguments GDraw {T} dr k.
+Fixpoint gbind {A B : Type} (p : gprog A) (f : A -> gprog B) : gprog B :=
+  match p with GRet x => f x | GDraw dr k => GDraw dr (fun v => gbind (k v) f) end.
+Notation "'dop' x <- e ; k" := (gbind e (fun x => k))
+  (at level 200, x pattern, e at level 100, k at level 200, right associativity).
+(* a for loop whose body may draw: the state is threaded left to right *)
+Fixpoint prog_fold {S A : Type} (f : S -> A -> gprog S) (l : list A) (s : S) : gprog S :=
+  match l with
+  | [] => GRet s
+  | a :: r => dop s' <- f s a; prog_fold f r s'
+  end.
+Fixpoint to_prog (p : gprog st) : prog :=
+  match p with GRet s => Ret s | GDraw dr k => Draw dr (fun v => to_prog (k v)) end.
+Fixpoint of_prog (p : prog) : gprog st :=
+  match p with Ret s => GRet s | Draw dr k => GDraw dr (fun v => of_prog (k v)) end.
+(* equality of programs up to the extensionality of their continuations (Coq's equality of functions is intensional;
+   no axiom is used): the same draw arguments, and equal programs for every drawn value *)
+Inductive prog_eq : prog -> prog -> Prop :=
+| PE_ret : forall s, prog_eq (Ret s) (Ret s)
+| PE_draw : forall dr k1 k2, (forall v, prog_eq (k1 v) (k2 v)) -> prog_eq (Draw dr k1) (Draw dr k2).
+Inductive geq {T : Type} : gprog T -> gprog T -> Prop :=
+| GE_ret : forall x, geq (GRet x) (GRet x)
+| GE_draw : forall dr k1 k2, (forall v, geq (k1 v) (k2 v)) -> geq (GDraw dr k1) (GDraw dr k2).
+
+(* np.sqrt(x) and 1.0 / np.sqrt(x), kept symbolic: the model never takes a square root of a variance (a normal draw
+   with standard deviation 1/sqrt(p) has variance 1/p exactly); where the VALUE of 1/sqrt(x) is used (the clipping
+   bound) it is the oracle's, as in [clip_lo] *)
+Inductive ssqrt := Sqrt (x : Qc).
+Inductive isqrt := InvSqrt (x : Qc).
+Definition inv_sqrt (r : ssqrt) : isqrt := match r with Sqrt x => InvSqrt x end.
+Definition isq_sq (r : isqrt) : Qc := match r with InvSqrt x => / x end.                        (* (1/sqrt x)^2 *)
+Definition isq_value (orc : oracle) (r : isqrt) : Qc := match r with InvSqrt x => / orc ORC_SQRT x end.
+
+(* np.random.normal(m, s), np.random.normal(0.0, s) with an array s, np.random.gamma(a, scale): scale = 1 / rate *)
+Definition draw_normal (m : Qc) (s : isqrt) : gprog Qc := GDraw (DNormal m (isq_sq s)) (fun v => GRet (val_q v)).
+Definition draw_normal_vec (s : list isqrt) : gprog (list Qc) := GDraw (DNormalVec (map isq_sq s)) (fun v => GRet (val_v v)).
+Definition draw_gamma (a scale : Qc) : gprog Qc := GDraw (DGamma a (/ scale)) (fun v => GRet (val_q v)).
+Definition draw_gamma_vec (a : Qc) (scales : list Qc) : gprog (list Qc) :=
+  GDraw (DGammaVec a (map Qcinv scales)) (fun v => GRet (val_v v)).
+Definition draw_gamma_mat (a : Qc) (scales : list (list Qc)) : gprog (list (list Qc)) :=
+  GDraw (DGammaMat a (map (map Qcinv) scales)) (fun v => GRet (val_m v)).
+
+(* a[i] with a Python int i (negative counts from the end); a[i] = v *)
+Definition np_get {A} (z : A) (a : list A) (i : Z) : A := nth (pyidx (length a) i) a z.
+Definition np_store {A} (a : list A) (i : Z) (v : A) : list A := set_nth (pyidx (length a) i) v a.
+(* a[idx] with an array of observation numbers / of Python ints: one entry per index, in order *)
+Definition np_gather {A} (z : A) (a : list A) (idx : list nat) : list A := map (fun i => nth i a z) idx.
+Definition np_take {A} (z : A) (a : list A) (ix : list Z) : list A := map (np_get z a) ix.
+(* elementwise operators on arrays of equal shape, array op scalar *)
+Fixpoint zipw {A B C} (f : A -> B -> C) (a : list A) (b : list B) : list C :=
+  match a, b with x :: a', y :: b' => f x y :: zipw f a' b' | _, _ => [] end.
+Definition np_vsub (a b : list Qc) : list Qc := zipw Qcminus a b.
+Definition np_vadd (a b : list Qc) : list Qc := zipw Qcplus a b.
+Definition np_vmul (a b : list Qc) : list Qc := zipw Qcmult a b.
+Definition np_vadds (a : list Qc) (x : Qc) : list Qc := map (fun y => y + x) a.
+Definition np_vmuls (a : list Qc) (x : Qc) : list Qc := map (fun y => y * x) a.
+Definition np_square (a : list Qc) : list Qc := map qsq a.
+(* a[idx] += x (a scalar, broadcast) / a[idx] += delta (an array): gather, add, assign in order *)
+Definition np_iadd_at_scalar (a : list Qc) (idx : list nat) (x : Qc) : list Qc := scatter_add a idx (map (fun _ => x) idx).
+Definition np_iadd_at (a : list Qc) (idx : list nat) (delta : list Qc) : list Qc := scatter_add a idx delta.
+(* np.where(mask)[0]: the positions where the mask holds, ascending *)
+Definition np_where (m : list bool) : list nat := filter (fun i => nth i m false) (seq 0 (length m)).
+(* a[positions] = 0.0: every listed entry (row) becomes zero ([z] = the zero of an entry's shape) *)
+Definition np_zero_at {A} (z : A) (a : list A) (pos : list nat) : list A := fold_left (fun a i => set_nth i z a) pos a.
+(* np.clip(x, C, hi) with C = 1.0 / np.sqrt(..) *)
+Definition np_clip_isq (orc : oracle) (x : Qc) (lo : isqrt) (hi : Qc) : Qc := qclip (isq_value orc lo) hi x.
